@@ -62,6 +62,8 @@ func C10(c *core.Ctx) {
 	p := c.P
 	defer c10FrameBuffer(c)
 	defer c10ReassemblyKey(c)
+	defer c10RemovalOnlyWhenDone(c)
+	defer c10HeadersOnEveryFragment(c)
 	// fields of the link service by role, not by name: the reassembly store is the map
 	// field whose values are fragment lists ([][]byte); the cached overhead is the int
 	// field that the overhead function assigns
@@ -1491,4 +1493,165 @@ func c10ReassemblyKey(c *core.Ctx) {
 		bare = false
 	}
 	c.Decide(!bare, "R10.18", "reassembly-key-identifies-the-sender:"+field, p.Pos(ls.Obj().Pos()), "the key of the partial-message store is not a bare number ("+key.String()+")", "the partial-message store of the link service is keyed by a bare number ("+key.String()+": the sequence number of the first fragment) while "+multi+" receives the frames of every neighbour on a multicast group through one link service: sequence numbers are per sender, so the fragments of two neighbours whose counters are close are assembled into one packet that neither sent, and neither original is delivered")
+}
+
+// c10HeadersOnEveryFragment — R10.19 "the peer delivers the original packet together with its
+// PIT token and congestion mark": the receiver takes the per-packet headers (PIT token,
+// congestion mark, incoming face) from the frame that completes the message — whichever
+// fragment arrives last. The sender therefore attaches them to every fragment: in the
+// fragment loop of sendPacket no store of such a header is conditional on the position of
+// the fragment. Headers on the first fragment only are delivered when the fragments arrive
+// in reverse order and lost when they arrive in order.
+func c10HeadersOnEveryFragment(c *core.Ctx) {
+	send := c.Fn("R10.19", "fw/face", "", "sendPacket")
+	if send == nil {
+		return
+	}
+	perPacket := map[string]bool{"PitToken": true, "CongestionMark": true, "IncomingFaceId": true}
+	// loop counters: integer phis in blocks on a cycle
+	isCounter := func(v ssa.Value) bool {
+		for d := 0; d < 4; d++ {
+			switch x := core.StripConv(v).(type) {
+			case *ssa.Phi:
+				b, ok := x.Type().Underlying().(*types.Basic)
+				return ok && b.Info()&types.IsInteger != 0 && core.InLoop(x.Block())
+			case *ssa.BinOp:
+				if _, isK := x.Y.(*ssa.Const); isK {
+					v = x.X
+					continue
+				}
+			}
+			return false
+		}
+		return false
+	}
+	n := 0
+	core.Instrs(send, func(in ssa.Instruction) {
+		st, ok := in.(*ssa.Store)
+		if !ok || !core.InLoop(st.Block()) && !func() bool {
+			for _, b := range send.Blocks {
+				if core.InLoop(b) && b.Dominates(st.Block()) {
+					return true
+				}
+			}
+			return false
+		}() {
+			return
+		}
+		fa, ok := st.Addr.(*ssa.FieldAddr)
+		if !ok {
+			return
+		}
+		tn, f := core.FieldAddrName(fa)
+		if tn != "LpPacket" || !perPacket[f] {
+			return
+		}
+		n++
+		bad := ""
+		for _, b := range send.Blocks {
+			if len(b.Instrs) == 0 {
+				continue
+			}
+			iff, ok := b.Instrs[len(b.Instrs)-1].(*ssa.If)
+			if !ok {
+				continue
+			}
+			_, x, y, isCmp := core.Cmp(iff.Cond)
+			if !isCmp || !(isCounter(x) || isCounter(y)) {
+				continue
+			}
+			// a test of the position inside the loop body: both outcomes stay in the loop (the
+			// loop's own continuation test leaves it on one side)
+			stays := true
+			for _, s := range b.Succs {
+				if s != b && len(core.ReachAvoiding(send, s, map[*ssa.BasicBlock]bool{b: true}, nil)) == 0 {
+					stays = false
+				}
+			}
+			if !stays {
+				continue
+			}
+			for _, s := range b.Succs {
+				if len(s.Preds) == 1 && (s == st.Block() || s.Dominates(st.Block())) {
+					bad = c.Pos(iff)
+				}
+			}
+		}
+		c.Decide(bad == "", "R10.19", "per-packet-header-on-every-fragment:"+f, c.Pos(st), "the header is attached whatever the position of the fragment", "sendPacket attaches LpPacket."+f+" only to fragments at certain positions (test of the loop counter at "+bad+"), while the receiving link service takes the per-packet headers from the frame that completes the message, whichever arrives last: with in-order arrival the header of a fragmented packet is lost (a Data loses its PIT token and is dropped by the peer's dispatch; a congestion mark disappears)")
+	})
+	c.Floor("R10.19", "per-packet headers attached in the fragment loop", n, 3)
+}
+
+// c10RemovalOnlyWhenDone — R10.20 "in any order": a partial message leaves the store only
+// when it is complete, or when the store is given up as a whole because it is full. A
+// removal decided by anything else — the position of the fragment that has just arrived,
+// say — assumes an order of arrival: the message is thrown away when its last fragment
+// overtakes another one. Every removal from the store in reassemblePacket (delete, clear)
+// lies behind a test against the size of the store or of the message's slot table.
+func c10RemovalOnlyWhenDone(c *core.Ctx) {
+	ra := c.Fn("R10.20", "fw/face", "NDNLPLinkService", "reassemblePacket")
+	if ra == nil {
+		return
+	}
+	isStore := func(v ssa.Value) bool {
+		m, ok := v.Type().Underlying().(*types.Map)
+		if !ok {
+			return false
+		}
+		if s1, ok := m.Elem().Underlying().(*types.Slice); ok {
+			_, ok2 := s1.Elem().Underlying().(*types.Slice)
+			return ok2
+		}
+		return false
+	}
+	sizeTest := func(cond ssa.Value) bool {
+		_, x, y, ok := core.Cmp(cond)
+		if !ok {
+			return false
+		}
+		for _, side := range []ssa.Value{x, y} {
+			if l, isLen := core.LenOf(core.StripConv(side)); isLen {
+				if isStore(l) {
+					return true
+				}
+				if lk, ok := core.Strip(l).(*ssa.Lookup); ok && isStore(lk.X) {
+					return true
+				}
+			}
+		}
+		return false
+	}
+	n := 0
+	core.Instrs(ra, func(in ssa.Instruction) {
+		cl, ok := in.(*ssa.Call)
+		if !ok {
+			return
+		}
+		b, ok := cl.Call.Value.(*ssa.Builtin)
+		if !ok || (b.Name() != "delete" && b.Name() != "clear") || len(cl.Call.Args) == 0 || !isStore(cl.Call.Args[0]) {
+			return
+		}
+		n++
+		okGate := false
+		for _, blk := range ra.Blocks {
+			if len(blk.Instrs) == 0 {
+				continue
+			}
+			iff, isIf := blk.Instrs[len(blk.Instrs)-1].(*ssa.If)
+			if !isIf || !sizeTest(iff.Cond) || core.InLoop(blk) {
+				continue // (the continuation test of a loop over the slots is not a decision)
+			}
+			// the side on which the size was reached: `n == len(slots)`, `len(store) >= max`
+			op, _, _, _ := core.Cmp(iff.Cond)
+			side := 1
+			if op == token.EQL || op == token.GEQ || op == token.GTR {
+				side = 0
+			}
+			if s := blk.Succs[side]; len(s.Preds) == 1 && (s == cl.Block() || s.Dominates(cl.Block())) {
+				okGate = true
+			}
+		}
+		c.Decide(okGate, "R10.20", fmt.Sprintf("partial-message-removed-only-when-done#%d", n), c.Pos(cl), "the removal lies behind a test of the size of the store or of the message's slot table", "reassemblePacket removes a partial message at "+c.Pos(cl)+" on a condition that is neither its completion nor the store being full: the decision then depends on which fragment has just arrived, i.e. on the order of arrival — a message whose fragments arrive out of order is thrown away and never delivered")
+	})
+	c.Floor("R10.20", "removals from the partial-message store in reassemblePacket", n, 2)
 }
